@@ -27,8 +27,12 @@ def generate(rng, tier, shard, nshards):
         ctxs += [[gops.EOS_NAME], [sorted(g.V)[0], gops.EOS_NAME], [gops.EOS_NAME, sorted(g.V)[0]]]
         for alg in ("earley", "cky"):
             for ctx in ctxs:
-                yield gops.event("mask", {"sr": srn, "G": G, "ctx": ctx, "alg": alg, "names": names},
-                                 site=f"BoolCFGLM[{alg}].p_next", feat=feat)
+                args = {"sr": srn, "G": G, "ctx": ctx, "alg": alg, "names": names}
+                f2 = feat
+                if rng.random() < 0.3:       # earlier queries on the same LM object, incl. dead extensions of ctx
+                    args["warm"] = [ctx + [t] for t in sorted(g.V)][: rng.randint(1, 2)] + [rng.choice(ctxs)]
+                    f2 = feat + "+history"
+                yield gops.event("mask", args, site=f"BoolCFGLM[{alg}].p_next", feat=f2)
 
 
 def selftests(events, rng):
